@@ -961,9 +961,9 @@ func VerifC20SameReason() {
 		_, err := g.Compile(ctx, WithNodeTriggerMode(AllPredecessor))
 		return err
 	}
-	e1 := build() // one attempt in the default order of the maps ...
+	e1 := build()                 // one attempt in the default order of the maps ...
 	vcfgMapOrderIn("validateDAG") // (the maps of the cycle check; those of compile itself are too many to enumerate)
-	e2 := build() // ... and one in any order
+	e2 := build()                 // ... and one in any order
 	vcfgMapOrderIn("-validateDAG")
 	vassert(e1 != nil && e2 != nil, "the ill-formed graph is rejected on every attempt")
 	if e1 != nil && e2 != nil {
